@@ -23,15 +23,41 @@ package treebidimap
 //@   modifies nothing
 //@   ensures [C10 C15 C17] fresh(result) && Inv(result) && result.forwardMap.size == 0 && result.forwardMap.Comparator == keyComparator && result.inverseMap.Comparator == valueComparator
 
-//@ -- Put: contract stated but NOT yet verified (the four obligations re-establishing Bij through two Removes and two Puts,
-//@ -- up to both comparators' equivalences, exceed the solver budget); trusted, outside the C10 claim for TreeBidiMap.Put
+//@ -- Put: Bij is broken between the four tree operations; the lemmas (consequences of Bij at entry: both directions are
+//@ -- injective up to the comparators' equivalences, and a pair is found from either side) carry it across
 //@ func Map.Put
-//@   trusted
 //@   requires Inv(m)
 //@   modifies m.forwardMap.Root, m.forwardMap.size, m.forwardMap.n, m.forwardMap.nodes, m.forwardMap.rank
 //@   modifies each x like m.forwardMap.Root where x.tr == m.forwardMap : x.Left, x.Right, x.Parent, x.a, x.b, x.color, x.Key, x.Value, x.pos, x.tr
 //@   modifies m.inverseMap.Root, m.inverseMap.size, m.inverseMap.n, m.inverseMap.nodes, m.inverseMap.rank
 //@   modifies each x like m.inverseMap.Root where x.tr == m.inverseMap : x.Left, x.Right, x.Parent, x.a, x.b, x.color, x.Key, x.Value, x.pos, x.tr
+//@   ghostvar vp := false
+//@   assert entry: forall a like key, b like key :: Fwd(m, a) && Fwd(m, b) && KC(m, a, b) != 0 ==> VC(m, FwdVal(m, a), FwdVal(m, b)) != 0
+//@   assert entry: forall a like key :: Fwd(m, a) && VC(m, FwdVal(m, a), value) == 0 ==> Bwd(m, value) && KC(m, BwdVal(m, value), a) == 0
+//@   assert entry: forall u like value, w like value :: Bwd(m, u) && Bwd(m, w) && VC(m, u, w) != 0 ==> KC(m, BwdVal(m, u), BwdVal(m, w)) != 0
+//@   assert entry: forall u like value :: Bwd(m, u) && KC(m, BwdVal(m, u), key) == 0 ==> Fwd(m, key) && VC(m, FwdVal(m, key), u) == 0
+//@   -- the two maps after the two evictions (vp: the pair holding `value` is still there after key's own pair left)
+//@   at before Tree.Put#1: vp := Bwd(m, value)
+//@   assert before Tree.Put#1: vp <==> old(Bwd(m, value)) && !(old(Fwd(m, key)) && VC(m, value, old(FwdVal(m, key))) == 0)
+//@   assert before Tree.Put#1: forall u like value :: (Bwd(m, u) <==> old(Bwd(m, u)) && !(old(Fwd(m, key)) && VC(m, u, old(FwdVal(m, key))) == 0)) && (Bwd(m, u) ==> BwdVal(m, u) == old(BwdVal(m, u)))
+//@   assert before Tree.Put#1: forall a like key :: (Fwd(m, a) <==> old(Fwd(m, a)) && !(vp && KC(m, a, old(BwdVal(m, value))) == 0)) && (Fwd(m, a) ==> FwdVal(m, a) == old(FwdVal(m, a)))
+//@   assert before Tree.Put#1: vp && old(Fwd(m, key)) ==> KC(m, key, old(BwdVal(m, value))) != 0
+//@   assert before Tree.Put#1: m.inverseMap.size == old(m.inverseMap.size) - ite(old(Fwd(m, key)), 1, 0) && m.forwardMap.size == old(m.forwardMap.size) - ite(vp, 1, 0)
+//@   -- ... and after the two insertions
+//@   assert exit: forall a like key :: (Fwd(m, a) <==> KC(m, a, key) == 0 || (old(Fwd(m, a)) && !(vp && KC(m, a, old(BwdVal(m, value))) == 0)))
+//@   assert exit: forall a like key :: Fwd(m, a) ==> (KC(m, a, key) == 0 ==> FwdVal(m, a) == value) && (KC(m, a, key) != 0 ==> FwdVal(m, a) == old(FwdVal(m, a)))
+//@   assert exit: forall u like value :: (Bwd(m, u) <==> VC(m, u, value) == 0 || (old(Bwd(m, u)) && !(old(Fwd(m, key)) && VC(m, u, old(FwdVal(m, key))) == 0)))
+//@   assert exit: forall u like value :: Bwd(m, u) ==> (VC(m, u, value) == 0 ==> BwdVal(m, u) == key) && (VC(m, u, value) != 0 ==> BwdVal(m, u) == old(BwdVal(m, u)))
+//@   assert exit: m.forwardMap.size == old(m.forwardMap.size) - ite(vp, 1, 0) + ite(old(Fwd(m, key)), 0, 1) && m.inverseMap.size == old(m.inverseMap.size) - ite(old(Fwd(m, key)), 1, 0) + ite(vp, 0, 1)
+//@   focus lemma:before-Tree.Put#1#* : pre:*, lemma:*, Tree.Get#*, Tree.Remove#*:map, Tree.Remove#*:present, Tree.Remove#*:absent
+//@   focus lemma:exit#* : pre:*, lemma:*, Tree.Put#*:map, Tree.Put#*:replaced, Tree.Put#*:inserted
+//@   focus pre@call:Tree.Put#1:* : pre:*, Tree.Remove#*:1, Tree.Remove#*:owners
+//@   focus pre@call:Tree.Put#2:* : pre:*, Tree.Remove#*:1, Tree.Remove#*:owners, Tree.Put#1:1, Tree.Put#1:owners
+//@   focus pre@call:Tree.Remove#2:* : pre:*, Tree.Remove#1:1, Tree.Remove#1:owners
+//@   focus post:1.* : pre:*, Tree.Remove#*:owners, Tree.Put#*:1, Tree.Put#*:owners
+//@   focus post:1.3* : pre:*, lemma:*
+//@   focus post:others : pre:*, lemma:*
+//@   focus post:1.33 : pre:*, lemma:*
 //@   ensures [C01 C10 C17] Inv(m) && Config(m) && Fwd(m, key) && VC(m, FwdVal(m, key), value) == 0 && Bwd(m, value) && KC(m, BwdVal(m, value), key) == 0
 //@   ensures [C01 C10] others: forall k like key :: KC(m, k, key) != 0 ==> (Fwd(m, k) <==> old(Fwd(m, k)) && VC(m, old(FwdVal(m, k)), value) != 0) && (Fwd(m, k) ==> FwdVal(m, k) == old(FwdVal(m, k)))
 
@@ -53,6 +79,8 @@ package treebidimap
 //@   modifies each x like m.forwardMap.Root where x.tr == m.forwardMap : x.Left, x.Right, x.Parent, x.a, x.b, x.color, x.Key, x.Value, x.pos, x.tr
 //@   modifies m.inverseMap.Root, m.inverseMap.size, m.inverseMap.n, m.inverseMap.nodes, m.inverseMap.rank
 //@   modifies each x like m.inverseMap.Root where x.tr == m.inverseMap : x.Left, x.Right, x.Parent, x.a, x.b, x.color, x.Key, x.Value, x.pos, x.tr
+//@   -- values of inequivalent keys are inequivalent (consequence of Bij; guides the proof that Bij is re-established)
+//@   assert before Tree.Remove#1: forall k like key :: Fwd(m, k) && KC(m, k, key) != 0 ==> VC(m, FwdVal(m, k), v) != 0
 //@   ensures [C01 C10 C17] Inv(m) && Config(m) && !Fwd(m, key)
 //@   ensures [C01 C10] forall k like key :: KC(m, k, key) != 0 ==> (Fwd(m, k) <==> old(Fwd(m, k))) && (Fwd(m, k) ==> FwdVal(m, k) == old(FwdVal(m, k)))
 //@   ensures [C10] old(Fwd(m, key)) ==> !Bwd(m, old(FwdVal(m, key)))
